@@ -24,6 +24,7 @@ EXPLANATION = (
     "response decoders get the request context's transfer syntax. Not decided: pydicom's conversion "
     "between transfer syntaxes; what user code passes as SOP class."
     " Second session: the matching loop of _get_valid_context is evaluated for one candidate over the finite space of what it can look at (requested syntax absent / same / different x is_compressed, is_little_endian, is_deflated, is_implicit_VR of both: 288 points) and compared with the conversion rule; role-source borrows C11's every-context / normalisation rules."
+    " Fifth round: (role-source) borrows C11's iteration-independent evaluation; (message-direction) borrowed from C20."
 )
 
 UPS_EXPECTED = {"UnifiedProcedureStepPull", "UnifiedProcedureStepWatch", "UnifiedProcedureStepEvent", "UnifiedProcedureStepQuery"}
@@ -222,6 +223,23 @@ def run(repo: Repo, rep: Report, tier: str) -> None:
                 defs = [s for s in walk_no_nested(fn) if isinstance(s, ast.Assign) and norm(s.targets[0]) == obj]
                 ok = "context" in ps and len(defs) == 1 and norm(defs[0].value) == "context.transfer_syntax[0]"
                 rebound = [s for s in walk_no_nested(fn) if isinstance(s, ast.Assign) and norm(s.targets[0]) == "context"]
+                if not defs and obj in ps[1:] and ps[:1] == ["self"]:
+                    # a helper that is handed the transfer syntax: every caller must hand it its own request context's
+                    idx = ps.index(obj) - 1
+                    callers = [k for k in ast.walk(m.tree) if isinstance(k, ast.Call) and norm(k.func) == f"self.{fn.name}"]
+                    ok, rebound = bool(callers), []
+                    for k in callers:
+                        kf = enclosing(k, (ast.FunctionDef,))
+                        arg = k.args[idx] if idx < len(k.args) else next((kw.value for kw in k.keywords if kw.arg == obj), None)
+                        kdefs = [s_ for s_ in walk_no_nested(kf) if isinstance(s_, ast.Assign) and arg is not None and norm(s_.targets[0]) == norm(arg)] if kf is not None else []
+                        okk = kf is not None and "context" in [a.arg for a in kf.args.args] and len(kdefs) == 1 and norm(kdefs[0].value) == "context.transfer_syntax[0]" and not [s_ for s_ in walk_no_nested(kf) if isinstance(s_, ast.Assign) and norm(s_.targets[0]) == "context"]
+                        if not okk:
+                            ok = False
+                            rep.fail("scp-side", f"{short}.{qualname(k)}", enclosing(k, (ast.stmt,)), f"{fn.name}() encodes with the transfer syntax it is handed, and this caller hands it `{norm(arg) if arg is not None else '?'}`, which is not the transfer syntax of the context the request arrived on", mod=m, node=k)
+                    if not ok:
+                        continue
+                    rep.ok("scp-side", f"{short}.{qualname(c)} :: helper", f"{len(callers)} callers hand it context.transfer_syntax[0]")
+                    continue
                 rep.check(ok and not rebound, "scp-side", f"{short}.{qualname(c)}", enclosing(c, (ast.stmt,)), f"codec flags read from {obj} = {norm(defs[0].value) if defs else '?'}: an SCP must encode/decode with the transfer syntax of the context the request arrived on (its `context` parameter)", mod=m, node=c)
     rep.floor("service-class codec sites", n_scp, 15)
 
